@@ -1,0 +1,45 @@
+//go:build verif
+
+package lib
+
+import "sync/atomic"
+
+// VerifHook is installed by the verification harness. While nil, VerifPoint is a no-op.
+var verifHook atomic.Pointer[func(point string, subject any)]
+
+// verifNow is installed by the verification harness to control the clock
+// seen by the code that calls VerifNow.
+var verifNow atomic.Pointer[func(now int64) int64]
+
+// SetVerifHook installs (or removes, with nil) the yield-point callback.
+func SetVerifHook(f func(point string, subject any)) {
+	if f == nil {
+		verifHook.Store(nil)
+		return
+	}
+	verifHook.Store(&f)
+}
+
+// SetVerifNow installs (or removes, with nil) the clock override.
+func SetVerifNow(f func(now int64) int64) {
+	if f == nil {
+		verifNow.Store(nil)
+		return
+	}
+	verifNow.Store(&f)
+}
+
+// VerifPoint marks a yield point for the verification harness.
+func VerifPoint(point string, subject any) {
+	if f := verifHook.Load(); f != nil {
+		(*f)(point, subject)
+	}
+}
+
+// VerifNow returns the given time unless the harness overrides the clock.
+func VerifNow(now int64) int64 {
+	if f := verifNow.Load(); f != nil {
+		return (*f)(now)
+	}
+	return now
+}
